@@ -99,7 +99,7 @@ type workerSummary struct {
 	Faults      map[string]int    `json:"faults"`
 	Probes      map[string]int    `json:"probes"`
 	Steps       int64             `json:"sched_steps"`
-	VirtualNs   int64             `json:"virtual_ns"`
+	VirtualS    float64           `json:"virtual_s"`
 	WallS       float64           `json:"wall_s"`
 	Violations  []violationRecord `json:"violations"`
 	Trouble     []string          `json:"trouble"`
@@ -195,7 +195,7 @@ func Main(t *testing.T, h Harness) {
 		o := h.Run(t, tape)
 		sum.Runs++
 		sum.Steps += int64(o.Sched.Steps)
-		sum.VirtualNs += int64(o.Virtual)
+		sum.VirtualS += o.Virtual.Seconds()
 		sum.AutoTasks += o.Sched.AutoTasks
 		sum.Untouched += simrt.UntouchedKeys
 		for k, v := range o.Faults {
